@@ -163,6 +163,7 @@ type window struct {
 	ack       map[nodeObj]bool // replication of a to n acknowledged through TaskResult
 	maint     map[int]bool     // n answered "maintenance" (or was flagged)
 	unreach   map[int]bool     // n answered with an error / timed out
+	notFound  map[int]bool     // n answered "not found"
 	replFail  bool
 	replOK    bool
 	removed   bool
@@ -171,7 +172,7 @@ type window struct {
 }
 
 func newWindow(o *simObj) *window {
-	return &window{obj: o, flagged: map[int]bool{}, headOK: map[nodeObj]bool{}, ack: map[nodeObj]bool{}, maint: map[int]bool{}, unreach: map[int]bool{}}
+	return &window{obj: o, flagged: map[int]bool{}, headOK: map[nodeObj]bool{}, ack: map[nodeObj]bool{}, maint: map[int]bool{}, unreach: map[int]bool{}, notFound: map[int]bool{}}
 }
 
 type world struct {
@@ -494,11 +495,17 @@ func (c *simConns) answer(ctx context.Context, op string, node netmap.NodeInfo, 
 		if n.lookup(addr, xs) != nil {
 			w.fire(op + ": not-found although stored")
 		}
+		if win != nil && len(xs) == 0 {
+			win.notFound[n.idx] = true
+		}
 		res("not found")
 		return nil, apistatus.ErrObjectNotFound
 	}
 	o := n.lookup(addr, xs)
 	if o == nil {
+		if win != nil && len(xs) == 0 {
+			win.notFound[n.idx] = true
+		}
 		res("not found")
 		return nil, apistatus.ErrObjectNotFound
 	}
@@ -651,10 +658,12 @@ type simLocal struct {
 	w     *world
 	owner int
 	// C27: ListWithCursor is a gate of the scheduler
-	gate    chan struct{}
-	parked  bool
-	lastEOL bool
-	listed  int
+	gate      chan struct{}
+	parked    bool
+	lastEOL   bool
+	lastCur   *engine.Cursor
+	firstSkip int
+	calls     int
 }
 
 func (s *simLocal) me() *simNode { return s.w.nodes[s.owner] }
@@ -749,6 +758,7 @@ func (s *simLocal) GetBytes(_ context.Context, addr oid.Address) ([]byte, error)
 		return nil, apistatus.ErrObjectNotFound
 	}
 	if s.localFault("read") {
+		s.w.r.Logf("    n%d local READ %s -> error", s.owner, o.name)
 		return nil, errSimLocal
 	}
 	return o.bin, nil
@@ -972,28 +982,45 @@ func (w *world) confirmed(win *window, owner, n int, a oid.Address) bool {
 	return win.headOK[k] || (win.ack[k] && w.nodes[n].store[a] != nil)
 }
 
-func (w *world) shape(win *window, list []int) string {
-	var fl []string
-	m, u := false, false
+// shape describes, for the violation signature, what the missing confirmations (shortfall > 0)
+// could have been mistaken for: the kinds of the not confirmed nodes of the list.
+func (w *world) shape(win *window, owner int, a oid.Address, list []int, shortfall int) string {
+	m, u, nf := 0, 0, 0
+	seen := map[int]bool{}
 	for _, n := range list {
-		if win.maint[n] {
-			m = true
+		if seen[n] || n == owner || w.confirmed(win, owner, n, a) {
+			continue
 		}
-		if win.unreach[n] {
-			u = true
+		seen[n] = true
+		if win.notFound[n] {
+			nf++
+		}
+		switch {
+		case win.maint[n]:
+			m++
+		case win.unreach[n]:
+			u++
 		}
 	}
-	if m {
-		fl = append(fl, "a node of the list was under maintenance")
+	var fl []string
+	switch {
+	case m >= shortfall:
+		fl = append(fl, "shortfall covered by nodes under maintenance")
+	case u >= shortfall:
+		fl = append(fl, "shortfall covered by unreachable nodes")
+	case m+u >= shortfall:
+		fl = append(fl, "shortfall covered by nodes under maintenance and unreachable nodes")
+	default:
+		fl = append(fl, "shortfall not covered by maintenance or unreachable nodes")
 	}
-	if u {
-		fl = append(fl, "a node of the list was unreachable")
+	if nf > 0 {
+		fl = append(fl, "a listed node had no copy")
+	}
+	if u > 0 && m >= shortfall {
+		fl = append(fl, "a listed node was unreachable")
 	}
 	if win.replFail {
 		fl = append(fl, "a replication failed")
-	}
-	if len(fl) == 0 {
-		return ""
 	}
 	return " [" + strings.Join(fl, "; ") + "]"
 }
@@ -1029,6 +1056,8 @@ func (w *world) checkRemoval(owner int, addr oid.Address) {
 				st = "maintenance"
 			case win.unreach[n]:
 				st = "unreachable"
+			case win.notFound[n]:
+				st = "no-copy"
 			}
 			fmt.Fprintf(&sb, " n%d:%s", n, st)
 		}
@@ -1057,7 +1086,7 @@ func (w *world) checkRemoval(owner int, addr oid.Address) {
 			if !inList(list, owner) {
 				where = "local node not in its rule's list"
 			}
-			r.Report("policer-delete", "EC part removed without a confirmed holder among its rule's nodes ("+where+")"+w.shape(win, list),
+			r.Report("policer-delete", "EC part removed without a confirmed holder among its rule's nodes ("+where+")"+w.shape(win, owner, addr, list, 1),
 				"%s of rule %d/%d removed from n%d; nodes of the rule:%s", o.name, pl.ecRules[o.rule].DataPartNum, pl.ecRules[o.rule].ParityPartNum, owner, describe(list))
 		}
 		return
@@ -1077,7 +1106,7 @@ func (w *world) checkRemoval(owner int, addr oid.Address) {
 		need := int(pl.copies[i])
 		got := count(list)
 		if got < need {
-			r.Report("policer-delete", typeWord(o)+" removed: a REP rule listing the local node has fewer confirmed other holders than its copies number"+w.shape(win, list),
+			r.Report("policer-delete", typeWord(o)+" removed: a REP rule listing the local node has fewer confirmed other holders than its copies number"+w.shape(win, owner, addr, list, need-got),
 				"%s removed from n%d; REP rule #%d needs %d copies, confirmed other holders: %d; nodes of the rule:%s", o.name, owner, i, need, got, describe(list))
 			return
 		}
@@ -1097,7 +1126,7 @@ func (w *world) checkRemoval(owner int, addr oid.Address) {
 			if inContainer {
 				where = "local node listed by EC rules only"
 			}
-			r.Report("policer-delete", typeWord(o)+" removed without any confirmed holder ("+where+")"+w.shape(win, all),
+			r.Report("policer-delete", typeWord(o)+" removed without any confirmed holder ("+where+")"+w.shape(win, owner, addr, all, 1),
 				"%s removed from n%d; container nodes:%s", o.name, owner, describe(all))
 		}
 	}
@@ -1248,7 +1277,13 @@ func runC26(r *simkit.R) {
 			}
 			r.Logf("object %s: EC part, placement%s", o.name, pl)
 		} else {
-			typ := []object.Type{object.TypeRegular, object.TypeTombstone, object.TypeLock, object.TypeLink}[r.Weighted(5, 2, 2, 2)]
+			regW := 5
+			if len(tpl.copies) == 0 {
+				// an unsplit REGULAR object does not belong into an EC-only container ("lacking EC
+				// attributes": the policer discards it as malformed); not generated
+				regW = 0
+			}
+			typ := []object.Type{object.TypeRegular, object.TypeTombstone, object.TypeLock, object.TypeLink}[r.Weighted(regW, 2, 2, 2)]
 			o = w.newPlain(typ, pl)
 			for _, nd := range w.nodes {
 				if nd.idx != local && r.Bool(50) {
